@@ -102,6 +102,10 @@ func (db *DB) compact(sourceSeg *segment) (CompactionResult, error) {
 	verifYield("compact.remove")
 	db.mu.Lock()
 	defer db.mu.Unlock()
+	// Commit the records copied to the current segment before removing their only other copy.
+	if err := db.datalog.sync(); err != nil {
+		return cr, err
+	}
 	err = db.datalog.removeSegment(sourceSeg)
 	return cr, err
 }
